@@ -173,12 +173,21 @@ def rule_kinds(ctx: Ctx, repo: Repo) -> None:
             ctx.check(decos == want_deco, "R-C12.1", f"{ST}.FunctionStub.render", f"a {want_kind} function is rendered with decorator(s) {want_deco}",
                       construct=f"{want_kind} prefix={prefix!r}: decorators {decos}")
         # (c) kind -> has_self
-        fd = RM.inst("FunctionDefinition", kind=RM.fkind(want_kind))
+        fd = RM.inst("FunctionDefinition", kind=RM.fkind(want_kind), qualname=K("f" if desc is None else "C.f"), module=K("pkg.mod"))
         sc2 = StubScenario(repo, "FunctionDefinition.has_self")
         sc2.ri.dispatch_instances = True
         hs = sc2.result({"self": fd})
         ctx.check(hs == K(want_self), "R-C12.1", f"{ST}.FunctionDefinition.has_self", f"a {want_kind} function {'has' if want_self else 'has no'} receiver parameter",
                   construct=f"{want_kind}: has_self={hs}")
+    # __new__ receives the class as its first argument although Python keeps it as a static method: a receiver all the same
+    for qn in ("C.__new__", "Outer.Inner.__new__"):
+        fd_new = RM.inst("FunctionDefinition", kind=RM.fkind("STATIC"), qualname=K(qn), module=K("pkg.mod"))
+        sc3 = StubScenario(repo, "FunctionDefinition.has_self")
+        sc3.ri.dispatch_instances = True
+        hs3 = sc3.result({"self": fd_new})
+        ctx.check(hs3 == K(True), "R-C12.1", f"{ST}.FunctionDefinition.has_self",
+                  "`__new__` has a receiver parameter (the class it is handed first), which is never annotated - although getattr_static finds it wrapped in a staticmethod",
+                  construct=f"{qn} (kind STATIC): has_self={hs3}")
     ctx.functions.update({f"{ST}.FunctionStub.render", f"{ST}.FunctionDefinition.has_self"})
     # (d) within one process: the class attribute is looked up afresh for every stub (a module that was edited and
     # re-imported, e.g. by a long-running tool or a second `stub` call, is described as it is now)
@@ -370,6 +379,29 @@ def rule_typed_dict_fields(ctx: Ctx, repo: Repo) -> None:
     ctx.floor("R-C12.7", "dicts with awkward string keys inferred", n, 20)
 
 
+def rule_generated_class_names(ctx: Ctx, repo: Repo) -> None:
+    """R-C12.8: the name of the class generated for a TypedDict at a parameter (or at the return / yield of a function) is a
+    Python identifier for every legal parameter / function name - also `_1`, `_2fa`, `__`, names with non-ASCII letters: the
+    stub carries `class <name>(TypedDict):` and a forward reference to it, neither of which parses otherwise."""
+    import keyword
+    fi = repo.fn(ST, "get_typed_dict_class_name")
+    ctx.functions.add(fi.fq)
+    p0 = fi.positional_params()[0]
+    names = ["foo", "foo_bar", "x", "_", "__", "_1", "_2fa", "__3", "x_1", "a1", "_private", "__dunder__", "CamelCase", "gr\u00f6\u00dfe", "\u03bb", "C_meth", "Outer_Inner_run"]
+    n = 0
+    for nm in names:
+        sc = StubScenario(repo, "get_typed_dict_class_name")
+        sc.ri.inline |= {f.fq for f in repo.module("monkeytype.util").functions.values() if f.cls is None}  # pascal_case and the like
+        res = sc.result({p0: K(nm)})
+        n += 1
+        ok = isinstance(res, K) and isinstance(res.v, str) and res.v.isidentifier() and not keyword.iskeyword(res.v)
+        if not (isinstance(res, K) and isinstance(res.v, str)):
+            raise AnalysisError(f"R-C12.8: get_typed_dict_class_name({nm!r}) is not determined: {res}")
+        ctx.check(ok, "R-C12.8", fi.fq, "the generated class name is an identifier for every legal parameter / function name",
+                  construct=f"parameter `{nm}` -> class `{res.v}`")
+    ctx.floor("R-C12.8", "parameter / function names turned into class names", n, 12)
+
+
 def run(ctx: Ctx, repo: Repo, tier: str) -> None:
     ctx.trust("Python's grammar as implemented by ast.parse of the analysing interpreter (oracle for the rendered text)",
               "Python semantics of classmethod/staticmethod/property: which of them receive the instance/class first")
@@ -378,6 +410,7 @@ def run(ctx: Ctx, repo: Repo, tier: str) -> None:
     ctx.attempt(rule_async, ctx, repo)
     ctx.attempt(rule_modules, ctx, repo)
     ctx.attempt(rule_typed_dict_fields, ctx, repo)
+    ctx.attempt(rule_generated_class_names, ctx, repo)
     # "the receiver parameter of a method is never annotated": the annotation decision table of update_signature_args
     # (strategy x annotated x traced x receiver), decided in full under C13 as R-C13.1
     from . import c13 as _c13
